@@ -22,6 +22,18 @@ Theorem C19_structural_rule_selected :
 Proof. exact structural_rule_selected_modulo_flags. Qed.
 Print Assumptions C19_structural_rule_selected.
 
+(* the statement is not vacuous: for the (function, class) pairs the property text names -- inv/solve, logdet, diag,
+   trace, matrix functions, cholesky, plu on Kronecker, block-diagonal, diagonal, identity, scalar operators and
+   products; exp on Kronecker sums -- the regenerated table does contain a structural rule (scope = true) *)
+Theorem C19_expected_structural_rules_exist :
+  forall f fs, In f c19_functions -> spec_of f = Some fs ->
+  forall req opt, admissible (restrict fs) req opt ->
+    In (nth (oppos f) req xH) ops_structured_square ->
+    In (cls (nth (oppos f) req xH)) (expected_for f) ->
+    snd (final 4 f req opt) = true.
+Proof. exact expected_structural_rules_exist. Qed.
+Print Assumptions C19_expected_structural_rules_exist.
+
 (* the mechanism of exp_kronsum_requires_alg / pow_kron_requires_alg on a frozen fragment of the pinned tree: the
    structural rule is registered without the default, so omitting the algorithm (or passing it by keyword) selects
    the generic one-argument signature ... *)
